@@ -156,7 +156,8 @@ class Check(PropertyCheck):
                   "direction, which flows must enter/leave) comes from Check.reference(case): own flows driven by the case's "
                   "operations, flowfilter and the key generators as references, never the View under test; the harness observes "
                   "the view only by iteration and attribute reads (no `f in view` / index lookups, which would re-cache keys). "
-                  "The Lean `stale` set is coarser than (b) (any mutate until re-evaluation). With ties the order among equal keys "
+                  "The Lean `stale` set is slightly coarser than (b): a mutate that changes the visibility or the key under the "
+                  "selected order makes the flow stale for both clauses until its re-evaluation (a mutate that changes neither does not). With ties the order among equal keys "
                   "is the order of (re-)insertion and depends on the history (proved stable only at re-filter / re-order). "
                   "trusted: sortedcontainers.SortedListWithKey behaves as a sorted list with bisect_right insertion and key-based "
                   "lookup (tied differentially, not proved); flowfilter verdicts are evaluated by the real flowfilter and fed to "
